@@ -71,7 +71,7 @@ def validate_dispatch(ck, paths):
 def gen_case(rng, nrng, values, **kw):
     """A random circuit with options and a stimulus matrix over `values`."""
     c, a = cg.gen_circuit(rng, **kw)
-    sims = rng.choice([1, 3, 7, 8, 9, 17])
+    sims = rng.choice([1, 3, 7, 8, 9, 17] * 4 + [63, 65, 130, 257])      # mostly small; some batches beyond 64 and 256 patterns (byte / word / block boundaries)
     slen = len(c.s_nodes)
     stim = np.array(values, dtype=np.uint8)[nrng.integers(0, len(values), size=(slen, sims))]
     return c, a, sims, stim
